@@ -211,3 +211,97 @@ func VerifHarness_C16_Picks() {
 	}
 	sym.Reach("pick")
 }
+
+// VerifHarness_C16_BaseExtend: a base pick that the compaction picker then
+// widens (ExtendL0ForBaseCompactionTo, between the user keys of the
+// neighbouring Lbase files; each side symbolic or unbounded) is still closed:
+// an overlapping L0 file left out of the widened pick is newer than the
+// member it overlaps, no file is taken twice or while compacting, and the
+// widened pick stays strictly between the given keys.
+func VerifHarness_C16_BaseExtend() {
+	files, specs := hL0FilesX(3, false)
+	hBaseExtend(files, specs)
+}
+
+func hBaseExtend(files []*TableMetadata, specs []hL0Spec) {
+	n := len(files)
+	cmp := base.DefaultComparer.Compare
+	lm := MakeLevelMetadata(cmp, 0, files)
+	s, err := newL0Sublevels(&lm, cmp, base.DefaultFormatter, 1<<20)
+	sym.Assert(err == nil, "sublevels-built")
+	if err != nil {
+		return
+	}
+	s.InitCompactingFileInfo(nil)
+	logger := &hNopLogger{}
+	c := s.PickBaseCompaction(logger, 1, LevelSlice{}, 6, nil)
+	sym.Assert(logger.errs == 0, "picker-logged-no-internal-error")
+	if c == nil {
+		sym.Reach("no-pick")
+		return
+	}
+	smallest, largest := base.InvalidInternalKey, base.InvalidInternalKey
+	lo, hi := byte(0), byte(255)
+	loSet, hiSet := sym.Bool("bounded-below"), sym.Bool("bounded-above")
+	if loSet {
+		lo = sym.U8("below")
+		smallest = base.MakeInternalKey([]byte{lo}, 1, base.InternalKeyKindSet)
+	}
+	if hiSet {
+		hi = sym.U8("above")
+		largest = base.MakeInternalKey([]byte{hi}, 1, base.InternalKeyKindSet)
+	}
+	// the keys come from the Lbase files next to the ones the pick overlaps: they lie strictly
+	// outside the pick's own key range (a file holding a key inside it would be part of the
+	// compaction)
+	inBefore := make([]bool, n)
+	for _, f := range c.Files {
+		k := int(f.TableNum) - 1
+		inBefore[k] = true
+		sym.Assume(sym.Or(!loSet, lo < specs[k].lo))
+		sym.Assume(sym.Or(!hiSet, hi > specs[k].hi))
+	}
+	before := len(c.Files)
+	s.ExtendL0ForBaseCompactionTo(smallest, largest, c)
+	sym.Assert(len(c.Files) >= before, "widening-only-adds")
+	sym.Assert(s.checkCompaction(c) == nil, "repo-checkCompaction-accepts-the-pick")
+	in := make([]bool, n)
+	for _, f := range c.Files {
+		k := int(f.TableNum) - 1
+		sym.Assert(!in[k], "no-file-twice")
+		in[k] = true
+		sym.Assert(!f.IsCompacting(), "pick-contains-no-compacting-file")
+		if !inBefore[k] { // a file added by the widening does not touch the given keys
+			sym.Assert(sym.Or(!loSet, specs[k].lo > lo), "added-file-above-the-lower-key")
+			sym.Assert(sym.Or(!hiSet, specs[k].hi < hi), "added-file-below-the-upper-key")
+		}
+	}
+	for k := range inBefore {
+		sym.Assert(!inBefore[k] || in[k], "widening-only-adds")
+	}
+	for g := 0; g < n; g++ {
+		if in[g] {
+			continue
+		}
+		for f := 0; f < n; f++ {
+			if in[f] {
+				sym.Assert(sym.Implies(hOverlap(specs[f], specs[g]), g > f), "base-pick-takes-every-older-overlapping-file")
+			}
+		}
+	}
+	sym.Reach("extended")
+}
+
+// ... around a deep stack: three fixed files [m,p] (the deepest stack, so the seed of the pick)
+// among two files with symbolic bounds below them - the widening then has to decide about
+// files that stick out of the rectangle or share one boundary key with a file that does.
+func VerifHarness_C16_BaseExtendAroundStack() {
+	files, specs := hL0FilesX(5, false)
+	for _, k := range []int{1, 3, 4} {
+		sym.Assume(sym.And(specs[k].lo == 'm', specs[k].hi == 'p'))
+	}
+	for _, k := range []int{0, 2} {
+		sym.Assume(sym.And(specs[k].lo >= 'a', specs[k].hi < 'm'))
+	}
+	hBaseExtend(files, specs)
+}
